@@ -487,6 +487,21 @@ func UniverseFor(t *rapid.T, tree *m.Node, collide bool) *Universe {
 			}
 		}
 	})
+	// variables folded with constants by an n-ary arithmetic call: half of them hold an end of int64
+	ends := map[string]bool{}
+	tree.Walk(func(x *m.Node) {
+		if x.Kind != m.KOp || len(x.Kids) < 3 {
+			return
+		}
+		switch x.Name {
+		case "/", "div", "%", "mod", "*", "mul", "-", "sub", "+", "add":
+			for _, k := range x.Kids {
+				if k.Kind == m.KVar {
+					ends[k.Name] = true
+				}
+			}
+		}
+	})
 	for _, name := range tree.VarNames() {
 		if b, ok := badVars[name]; ok {
 			u.Vars = append(u.Vars, VarDecl{Name: name, Ty: b.Ty, Mode: b.Mode})
@@ -494,7 +509,9 @@ func UniverseFor(t *rapid.T, tree *m.Node, collide bool) *Universe {
 		}
 		ty := tyOfVar(name)
 		val := genVal(t, ty, "v_"+name)
-		if ks := offs[name]; ty == m.TInt && len(ks) > 0 && rapid.Bool().Draw(t, "wrap_"+name) {
+		if ty == m.TInt && ends[name] && rapid.Bool().Draw(t, "end_"+name) {
+			val = rapid.SampledFrom([]int64{math.MinInt64, math.MaxInt64, math.MinInt64 + 1, -1, math.MinInt64 / 2}).Draw(t, "endval_"+name)
+		} else if ks := offs[name]; ty == m.TInt && len(ks) > 0 && rapid.Bool().Draw(t, "wrap_"+name) {
 			k := rapid.SampledFrom(ks).Draw(t, "wrapoff_"+name)
 			val = []int64{math.MaxInt64 - k + 1, math.MaxInt64 - k, math.MaxInt64, math.MinInt64 + k - 1, math.MinInt64 + k, math.MinInt64}[rapid.IntRange(0, 5).Draw(t, "wrapform_"+name)]
 		} else if ty == m.TInt && len(lits) > 0 && rapid.IntRange(0, 3).Draw(t, "near_"+name) == 0 {
@@ -837,9 +854,11 @@ func (g *G) idiom(d int, nest bool) *m.Node {
 	sub := func() *m.Node { return g.Expr(m.TBool, d-1) }
 	which := 18
 	if !nest {
-		which = rapid.IntRange(0, 22).Draw(g.t, "idiom")
-		if which >= 20 {
-			which = 19 // (the offset comparison has four times the weight of the others)
+		which = rapid.IntRange(0, 24).Draw(g.t, "idiom")
+		if which >= 23 {
+			which = 21
+		} else if which >= 20 {
+			which = 19 // (the offset comparison has three times the weight of the others)
 		} else if which >= 18 {
 			which++ // (18 is the nest)
 		}
@@ -864,6 +883,18 @@ func (g *G) idiom(d int, nest bool) *m.Node {
 			return m.Op(cmp, a, c)
 		}
 		return m.Op(cmp, c, a)
+	case 21:
+		// a variable folded with two or three constants by one n-ary arithmetic call - the shape a partial
+		// fold would regroup (a/b/c = a/(b*c), a-b-c = a-(b+c)), which int64 wrap-around does not allow
+		op := g.alias("/", "div", "-", "sub", "%", "mod", "*", "+")
+		ks := []*m.Node{x}
+		for i, n := 0, rapid.IntRange(2, 3).Draw(g.t, "idiom_tailn"); i < n; i++ {
+			ks = append(ks, m.Const(rapid.SampledFrom([]int64{-1, 2, -1, 3, 1, -2, 10, math.MaxInt64, math.MinInt64, 1 << 32}).Draw(g.t, "idiom_tailk")))
+		}
+		if rapid.IntRange(0, 3).Draw(g.t, "idiom_tailmid") == 0 {
+			ks[0], ks[1] = ks[1], ks[0] // (the variable in second place)
+		}
+		return m.Op(g.alias("=", "<", ">=", "!="), m.Op(op, ks...), li())
 	case 20:
 		// "no limit" written as a comparison with an end of the int64 range, on either side
 		ext := m.Const(rapid.SampledFrom([]int64{math.MaxInt64, math.MinInt64, math.MaxInt64 - 1, math.MinInt64 + 1}).Draw(g.t, "idiom_ext"))
